@@ -37,7 +37,7 @@ const ESCAPES: &[&str] = &[
     "\\'", "\\\\", "\\n", "\\x41", "\\x", "\\xg", "\\101", "\\0", "\\400", "\\8", "\\u0041", "\\u+041", "\\u-041", "\\U00000041", "\\UFFFFFFFF",
     "\\uD800", "\\u000", "\\+000041", "\\+110000", "\\+00D800", "\\+00004", "\\0041", "\\00g1", "\\004", "\\Z", "\\%", "\\\"", "\\b", "\\a",
 ];
-const OTHER: &[&str] = &["€", "\u{0}", "\u{7f}", "§"];
+const OTHER: &[&str] = &["€", "\u{0}", "\u{7f}", "§", "\u{feff}", "\u{200b}", "\u{2029}", "\u{1680}", "\u{fffd}", "\u{1a}"];
 
 fn fragments() -> Vec<&'static str> {
     let mut v: Vec<&'static str> = vec![];
@@ -65,7 +65,7 @@ pub fn char_table(d: &dyn Dialect, text: &str) -> String {
                 | (d.is_identifier_part(c) as u32) << 5
                 | (d.is_delimited_identifier_start(c) as u32) << 6
                 | (d.is_custom_operator_part(c) as u32) << 7;
-            let up = c.to_uppercase().map(|u| format!("{:x}", u as u32)).collect::<Vec<_>>().join(".");
+            let up = format!("{:x}", c.to_ascii_uppercase() as u32); // make_word upper-cases with ASCII rules
             format!("{:x}={}={}", c as u32, bits, up)
         })
         .collect::<Vec<_>>()
